@@ -5,7 +5,7 @@ for id in "$@"; do
   for s in A B; do
     p=/tmp/mut/$id/mut$s.diff; d=/tmp/mut/$id/demo$s.py
     [ -f "$p" ] || continue
-    [ -d seeded/$id-$s ] && { echo "$id-$s already stored"; continue; }
+    [ -d seeded/$id-$s ] && [ -z "$FORCE" ] && { echo "$id-$s already stored"; continue; }
     out=$(python3 tools/keep_seed.py $id-$s $p $d - $id 2>&1 | grep -v conda)
     echo "== $id-$s: $(echo "$out" | tail -1)"
     echo "$out" | grep -E '"suite_passes|"demo_exit' | tr -d '\n'; echo
